@@ -46,7 +46,7 @@ def run(rep, ctx):
     with rep.guard("C14.key-provenance"):
         key_provenance(rep, ctx.model, "C14.key-provenance")
     rep.floor("C14.key-provenance", 5)
-    if ctx.thorough:
+    if True:
         rep.rule("C14.conj", "every normalizer maps the reference group onto itself")
         rep.rule("C14.metric", "every normalizer preserves a generic metric of the crystal system")
         rep.rule("C14.perm", "tabulated letter permutation = permutation induced on the Wyckoff positions")
@@ -163,8 +163,8 @@ META = {
     "level": "proof",
     "text": "exhaustive discharge of finite obligations: every entry of the three literal tables (230 groups, 1731 "
             "Wyckoff positions, all normalizers) is checked with exact arithmetic against spglib's Hall database - "
-            "labels, expression/matrix/constant agreement, orbit closure, normalizer shape, handedness; thorough adds "
-            "conjugation, metric preservation, induced letter permutations and closure. The space is finite, so "
+            "labels, expression/matrix/constant agreement, orbit closure, normalizer shape, handedness, "
+            "conjugation, metric preservation, induced letter permutations and closure (all in both tiers; thorough adds the rule self-validation on broken copies). The space is finite, so "
             "enumeration is a proof relative to the reference; plus def-use provenance of the lookup keys.",
     "note": "trusted base: spglib's Hall database as the International Tables in the standard setting (lowest Hall "
             "number per group); CPython ast, fractions, numpy integer arithmetic; the checker itself. Floats in the "
